@@ -116,7 +116,8 @@ func VerifC03Symbol(n int, pc int, alpha int) {
 		}
 	}
 	vrt.Carve("C03-symbol-specials-unquoted", ctl || quest || kwSpecial)
-	vrt.Carve("C03-symbol-reads-as-other-datum", (num && digit) || zzC03Fold(b, "t") || zzC03Fold(b, "nil"))
+	vrt.Carve("C03-symbol-reads-as-other-datum", num && digit)
+	vrt.Carve("C03-symbol-t-nil-reads-as-constant", zzC03Fold(b, "t") || zzC03Fold(b, "nil"))
 	p := zzC03Printer(true)
 	switch pc {
 	case 0:
